@@ -213,10 +213,22 @@ func (vfs *BasePathFS) Getwd() (dir string, err error) {
 // The only possible returned error is ErrBadPattern, when pattern
 // is malformed.
 func (vfs *BasePathFS) Glob(pattern string) (matches []string, err error) {
-	matches, err = vfs.baseFS.Glob(vfs.ToBasePath(pattern))
+	// the base path of a pattern is cleaned : a trailing separator (only directories match) is kept.
+	sep := string(vfs.PathSeparator())
+	trailingSep := len(pattern) > 1 && vfs.IsPathSeparator(pattern[len(pattern)-1])
+
+	basePattern := vfs.ToBasePath(pattern)
+	if trailingSep && !strings.HasSuffix(basePattern, sep) {
+		basePattern += sep
+	}
+
+	matches, err = vfs.baseFS.Glob(basePattern)
 
 	for i, m := range matches {
 		matches[i] = vfs.FromBasePath(m)
+		if trailingSep && !strings.HasSuffix(matches[i], sep) {
+			matches[i] += sep
+		}
 	}
 
 	return matches, err
